@@ -129,6 +129,15 @@ func sliceProv(v ssa.Value) SliceProv {
 
 // makeSliceEmpty: make([]T, 0, …)
 func makeSliceEmpty(v ssa.Value) bool {
+	if al, ok := v.(*ssa.Alloc); ok {
+		// make([]T, 0) with constant zero length lowers to new [0]T + slice
+		if pt, ok := al.Type().Underlying().(*types.Pointer); ok {
+			if arr, ok := pt.Elem().Underlying().(*types.Array); ok && arr.Len() == 0 {
+				return true
+			}
+		}
+		return false
+	}
 	ms, ok := v.(*ssa.MakeSlice)
 	if !ok {
 		return false
